@@ -37,12 +37,12 @@ def rel(a, b):
 '''
 
 SNIP_DAUN = SNIP_HEAD + '''
-n, degree, dr, order, seed, rows, tol = %(n)d, %(degree)d, %(dr)r, %(order)r, %(seed)d, %(rows)d, %(tol)r
+n, degree, dr, order, seed, rows, tol, reg = %(n)d, %(degree)d, %(dr)r, %(order)r, %(seed)d, %(rows)d, %(tol)r, %(reg)r
 X = np.random.default_rng(seed).normal(size=(rows, n)) * 10
-T = lambda Y, d: abel.daun.daun_transform(Y, reg=None, degree=degree, dr=dr, direction=d, basis_dir=None, verbose=False)
+T = lambda Y, d: abel.daun.daun_transform(Y, reg=reg, degree=degree, dr=dr, direction=d, basis_dir=None, verbose=False)
 R = T(T(X, 'forward'), 'inverse') if order == 'inv(fwd)' else T(T(X, 'inverse'), 'forward')
 e = rel(R, X)
-print('daun degree=%%d n=%%d dr=%%r %%s: round trip deviates by %%.3e (tolerance %%.3e)' %% (degree, n, dr, order, e, tol))
+print('daun reg=%%r degree=%%d n=%%d dr=%%r %%s: round trip deviates by %%.3e (tolerance %%.3e)' %% (reg, degree, n, dr, order, e, tol))
 sys.exit(0 if e <= tol else 1)
 '''
 
@@ -57,15 +57,15 @@ sys.exit(0 if e <= tol else 1)
 '''
 
 SNIP_RBASEX = SNIP_HEAD + '''
-Rmax, aorder, odd, k, order, seed, tol = %(Rmax)d, %(aorder)d, %(odd)r, %(k)d, %(order)r, %(seed)d, %(tol)r
+Rmax, aorder, odd, k, order, seed, tol, reg = %(Rmax)d, %(aorder)d, %(odd)r, %(k)d, %(order)r, %(seed)d, %(tol)r, %(reg)r
 abel.rbasex.cache_cleanup()
 Af = abel.rbasex.get_bs_cached(Rmax, aorder, odd, 'forward', None, None, None, False)
-Ai = abel.rbasex.get_bs_cached(Rmax, aorder, odd, 'inverse', None, None, None, False)
+Ai = abel.rbasex.get_bs_cached(Rmax, aorder, odd, 'inverse', reg, None, None, False)
 p = np.random.default_rng(seed).normal(size=Rmax + 1) * 10
 q = Ai[k].dot(Af[k].dot(p)) if order == 'inv(fwd)' else Af[k].dot(Ai[k].dot(p))
 P = Ai[k].dot(Af[k]) if order == 'inv(fwd)' else Af[k].dot(Ai[k])
 e = max(rel(q, p), rel(P, np.eye(Rmax + 1)))
-print('rbasex Rmax=%%d order=%%d odd=%%r matrix %%d %%s: deviates from identity by %%.3e (tolerance %%.3e)' %% (Rmax, aorder, odd, k, order, e, tol))
+print('rbasex reg=%%r' %% (reg,), end=' '); print('Rmax=%%d order=%%d odd=%%r matrix %%d %%s: deviates from identity by %%.3e (tolerance %%.3e)' %% (Rmax, aorder, odd, k, order, e, tol))
 sys.exit(0 if e <= tol else 1)
 '''
 
@@ -75,7 +75,17 @@ APPROX = {
     'direct': "lambda x, d, dr: abel.direct.direct_transform(x, dr=dr, direction=d, correction=True, backend='python')",
     'basex_corrected': "lambda x, d, dr: abel.basex.basex_transform(x, sigma=1.0, reg=0.0, correction=True, "
                        "basis_dir=None, dr=dr, verbose=False, direction=d)",
+    # direct on an explicit mesh r= : uniform k*dr, and stretched (non-uniform) dr*(n-1)*(k/(n-1))**1.1
+    'direct-mesh-uniform': "lambda x, d, dr: abel.direct.direct_transform(x, r=np.arange(x.shape[-1]) * dr, direction=d, "
+                           "correction=True, backend='python')",
+    'direct-mesh-stretched': "lambda x, d, dr: abel.direct.direct_transform(x, r=dr * (x.shape[-1] - 1) * "
+                             "(np.arange(x.shape[-1]) / (x.shape[-1] - 1.0))**1.1, direction=d, correction=True, backend='python')",
+    'direct-mesh-stretched-nocorrection': "lambda x, d, dr: abel.direct.direct_transform(x, r=dr * (x.shape[-1] - 1) * "
+                             "(np.arange(x.shape[-1]) / (x.shape[-1] - 1.0))**1.1, direction=d, correction=False, backend='python')",
 }
+# envelope of an entry on a non-uniform mesh: also bounded by MESH_FACTOR x the envelope of the uniform mesh
+MESH_REF = {'direct-mesh-stretched': 'direct-mesh-uniform'}
+MESH_FACTOR = 3.0
 
 PROFILES_SRC = '''
 def profiles(n):
@@ -100,7 +110,7 @@ sys.exit(0 if (e <= env and edr <= dr_tol) else 1)
 
 def approx_fn(meth):
     import abel, abel.hansenlaw, abel.direct, abel.basex   # noqa
-    return eval(APPROX[meth], dict(abel=abel))
+    return eval(APPROX[meth], dict(abel=abel, np=np))
 
 
 def calibrate(sizes=(30, 60, 101, 200)):
@@ -150,30 +160,35 @@ def search(ctx, rng, enlarged):
                         ac.cleanup()         # fresh caches (second pass: cached / cropped bases)
                     B = abel.daun.get_bs_cached(n, degree, direction='forward')
                     tol = RTOL_COND * max(float(np.linalg.cond(B)), 1.0)
-                    for dr in drs:
-                        for order in orders:
-                            seed = seed0 + n * 101 + degree
-                            rows = 1 + (n + degree) % 3
-                            X = np.random.default_rng(seed).normal(size=(rows, n)) * 10
-                            T = lambda Y, d: abel.daun.daun_transform(Y, reg=None, degree=degree, dr=dr, direction=d,   # noqa
-                                                                      basis_dir=None, verbose=False)
-                            try:
-                                R = T(T(X, 'forward'), 'inverse') if order == 'inv(fwd)' else T(T(X, 'inverse'), 'forward')
-                                e = ac.rel_err(R, X)
-                            except Exception as ex:     # noqa
-                                e = float('inf')
-                            n_eval += 1
-                            distinct.add(('daun', degree, n, dr, order, pas))
-                            worst['daun'] = max(worst.get('daun', 0.0), e / tol)
-                            if len(samples) < 3:
-                                samples.append(dict(method='daun', degree=degree, n=n, dr=dr, order=order, deviation=e, tol=tol))
-                            if not e <= tol:
-                                hits.append(Hit('exact-roundtrip', 'C03:daun:degree=%d:%s' % (degree, order),
-                                                'daun degree=%d n=%d dr=%r: %s deviates from the input by %.2e (tolerance %.2e)'
-                                                % (degree, n, dr, order, e, tol),
-                                                SNIP_DAUN % dict(n=n, degree=degree, dr=dr, order=order, seed=seed, rows=rows, tol=tol),
-                                                dict(method='daun', degree=degree, n=n, dr=dr, order=order, seed=seed,
-                                                     deviation=e, cond=tol / RTOL_COND)))
+                    # every spelling of "no regularisation" and every regulariser family at strength 0
+                    regs = [None, 0, 0.0, ('diff', 0), ('L2', 0), ('L2c', 0), ('diff', 0.0)]
+                    if n > 40 and not (ctx.quick and not enlarged):
+                        regs = [None, regs[1 + (n + degree) % 6]]
+                    for reg in regs:
+                        for dr in drs:
+                            for order in orders:
+                                seed = seed0 + n * 101 + degree
+                                rows = 1 + (n + degree) % 3
+                                X = np.random.default_rng(seed).normal(size=(rows, n)) * 10
+                                T = lambda Y, d: abel.daun.daun_transform(Y, reg=reg, degree=degree, dr=dr, direction=d,   # noqa
+                                                                          basis_dir=None, verbose=False)
+                                try:
+                                    R = T(T(X, 'forward'), 'inverse') if order == 'inv(fwd)' else T(T(X, 'inverse'), 'forward')
+                                    e = ac.rel_err(R, X)
+                                except Exception as ex:     # noqa
+                                    e = float('inf')
+                                n_eval += 1
+                                distinct.add(('daun', degree, n, dr, order, pas, repr(reg)))
+                                worst['daun'] = max(worst.get('daun', 0.0), e / tol)
+                                if len(samples) < 3:
+                                    samples.append(dict(method='daun', degree=degree, n=n, dr=dr, order=order, reg=repr(reg), deviation=e, tol=tol))
+                                if not e <= tol:
+                                    hits.append(Hit('exact-roundtrip', 'C03:daun:degree=%d:%s:reg=%r' % (degree, order, reg),
+                                                    'daun reg=%r degree=%d n=%d dr=%r: %s deviates from the input by %.2e (tolerance %.2e)'
+                                                    % (reg, degree, n, dr, order, e, tol),
+                                                    SNIP_DAUN % dict(n=n, degree=degree, dr=dr, order=order, seed=seed, rows=rows, tol=tol, reg=reg),
+                                                    dict(method='daun', degree=degree, n=n, dr=dr, order=order, seed=seed, reg=repr(reg),
+                                                         deviation=e, cond=tol / RTOL_COND)))
         # ---- basex sigma=1, reg=0, no correction --------------------------------
         for n in basex_sizes:
             ac.cleanup()
@@ -204,11 +219,13 @@ def search(ctx, rng, enlarged):
         # ---- rbasex, per angular order -------------------------------------------
         for Rmax in rb_sizes:
             for aorder, odd in ((0, False), (2, False), (4, False), (1, True), (3, True)):
+              # unregularised, and every regulariser family at strength 0
+              for reg in (None, ('L2', 0), ('diff', 0), ('SVD', 0)):
                 ac.cleanup()
                 Af = abel.rbasex.get_bs_cached(Rmax, aorder, odd, 'forward', None, None, None, False)
-                Ai = abel.rbasex.get_bs_cached(Rmax, aorder, odd, 'inverse', None, None, None, False)
+                Ai = abel.rbasex.get_bs_cached(Rmax, aorder, odd, 'inverse', reg, None, None, False)
                 for k in range(len(Af)):
-                    tol = RTOL_COND * max(float(np.linalg.cond(Af[k])), 1.0)
+                    tol = RTOL_COND * max(float(np.linalg.cond(Af[k])), 1.0) * (1 if reg is None else 1e3)
                     for order in orders:
                         seed = seed0 + Rmax * 13 + k
                         p = np.random.default_rng(seed).normal(size=Rmax + 1) * 10
@@ -218,14 +235,14 @@ def search(ctx, rng, enlarged):
                             q, P = Af[k].dot(Ai[k].dot(p)), Af[k].dot(Ai[k])
                         e = max(ac.rel_err(q, p), ac.rel_err(P, np.eye(Rmax + 1)))
                         n_eval += 1
-                        distinct.add(('rbasex', Rmax, aorder, odd, k, order))
+                        distinct.add(('rbasex', Rmax, aorder, odd, k, order, repr(reg)))
                         worst['rbasex'] = max(worst.get('rbasex', 0.0), e / tol)
                         if not e <= tol:
-                            hits.append(Hit('exact-roundtrip', 'C03:rbasex:order=%d:odd=%r:n=%d:%s' % (aorder, odd, k, order),
-                                            'rbasex Rmax=%d order=%d odd=%r, matrices of angular term %d: %s deviates from identity '
-                                            'by %.2e (tolerance %.2e)' % (Rmax, aorder, odd, k, order, e, tol),
-                                            SNIP_RBASEX % dict(Rmax=Rmax, aorder=aorder, odd=odd, k=k, order=order, seed=seed, tol=tol),
-                                            dict(method='rbasex', Rmax=Rmax, order=aorder, odd=odd, k=k, deviation=e)))
+                            hits.append(Hit('exact-roundtrip', 'C03:rbasex:order=%d:odd=%r:n=%d:%s:reg=%r' % (aorder, odd, k, order, reg),
+                                            'rbasex reg=%r Rmax=%d order=%d odd=%r, matrices of angular term %d: %s deviates from identity '
+                                            'by %.2e (tolerance %.2e)' % (reg, Rmax, aorder, odd, k, order, e, tol),
+                                            SNIP_RBASEX % dict(Rmax=Rmax, aorder=aorder, odd=odd, k=k, order=order, seed=seed, tol=tol, reg=reg),
+                                            dict(method='rbasex', Rmax=Rmax, order=aorder, odd=odd, k=k, reg=repr(reg), deviation=e)))
         samples.append(dict(method='rbasex', Rmax=rb_sizes[-1], worst_over_tol=worst.get('rbasex')))
         # ---- approximate class (swept; calibrated envelopes) ----------------------
         try:
@@ -242,6 +259,9 @@ def search(ctx, rng, enlarged):
                         if cal is None:
                             continue
                         env = SAFETY * cal + 1e-12
+                        ref = envs.get('%s|%d|%s|%s' % (MESH_REF.get(meth), n, pn, order))
+                        if ref is not None:
+                            env = min(env, MESH_FACTOR * ref)
                         rt = (lambda dr: f(f(X, 'forward', dr), 'inverse', dr)) if order == 'inv(fwd)' else \
                              (lambda dr: f(f(X, 'inverse', dr), 'forward', dr))
                         try:
